@@ -137,7 +137,7 @@ func newTracedHandler(tr *tracer) (*e2e.Handler, *int64, *atomic.Value) {
 		if c.Method == "basePing" {
 			atomic.AddInt64(pings, 1)
 		}
-		tr.add(event{"handler", "call", c.Method, renderList(c.Args)})
+		tr.add(event{"handler", "call", c.Method, withCtx(renderList(c.Args), ctxDescOf(time.Duration(c.Timeout), c.ReqHdrs))})
 		res := handlerFn(c.Method, mode.Load().(string), c.Args)
 		o := &e2e.Outcome{Err: resErr(res)}
 		if len(res) == 2 {
@@ -156,10 +156,11 @@ func (mon *monitor) rpcJudge(w interface{}, label string, env *rpcEnv, call rpcC
 	args := call.Args()
 	// expected: fold the declared order
 	var exp []event
-	a := foldIn(&exp, clientChain, call.Method, args)
+	cm := &ctxModel{TO: 20 * time.Second} // the caller's context below
+	a := foldIn(&exp, clientChain, call.Method, cm, args)
 	split := len(exp)
-	a = foldIn(&exp, serverChain, call.Method, a)
-	exp = append(exp, event{"handler", "call", call.Method, renderList(a)})
+	a = foldIn(&exp, serverChain, call.Method, cm, a)
+	exp = append(exp, event{"handler", "call", call.Method, withCtx(renderList(a), cm.String())})
 	res := handlerFn(call.Method, call.Mode, a)
 	res = foldOut(&exp, serverChain, call.Method, res)
 	splitOut := len(exp)
